@@ -1324,7 +1324,7 @@ def main(ctx):
     nchunk = common.NPROC
     order = list(range(len(cases)))
     chunks = [order[i::nchunk] for i in range(nchunk)]
-    res = common.run_impl_parallel('c11_impl.py', [{'cases': [cases[i] for i in ch]} for ch in chunks if ch], timeout=1500)
+    res = common.run_impl_parallel('c11_impl.py', [{'cases': [cases[i] for i in ch]} for ch in chunks if ch], timeout=ctx.pick(1500, 7200))
     results = [None] * len(cases)
     api_calls = {}
     for ch, (r, err) in zip([c for c in chunks if c], res):
